@@ -15,13 +15,19 @@ import (
 
 // pureScalarFn reports whether fn (with contract fc) qualifies: declared pure, scalar params/results.
 func pureScalarFn(fn *ssa.Function, fc *FuncContract) bool {
-	if fc == nil || !fc.Pure || fn.Signature.Recv() != nil {
+	if fc == nil || !fc.Pure {
 		return false
 	}
 	for _, p := range fn.Params {
 		// pointer parameters stand for the identity of the object (assumption, as for pure interface
 		// methods: the result depends on nothing that changes while the caller runs)
-		if k := kindOf(p.Type()); k != KScalar && k != KPtr {
+		k := kindOf(p.Type())
+		if k == KPtr && !fc.Trusted {
+			// only for assumed (trusted) contracts: a verified function's result may depend on fields the
+			// caller mutates between two calls, and one shared application would then be unsound
+			return false
+		}
+		if k != KScalar && k != KPtr {
 			return false
 		}
 	}
@@ -34,7 +40,7 @@ func pureScalarFn(fn *ssa.Function, fc *FuncContract) bool {
 
 func (x *Exec) pureApp(fn *ssa.Function, args []*Term) *Term {
 	m := x.m()
-	name := "fn." + fn.Pkg.Pkg.Name() + "." + fn.Name()
+	name := "fn." + fn.Pkg.Pkg.Name() + "." + contractKey(fn)
 	q := quoteSym(name)
 	rs := m.leafSort(fn.Signature.Results().At(0).Type())
 	if _, ok := x.vc.declared[q]; !ok {
